@@ -17,7 +17,7 @@ from checks.c14 import Model, decode_insts
 
 HERE = os.path.dirname(os.path.abspath(__file__))
 VERIF = os.path.dirname(HERE)
-EXTRACTORS = ["stepfile", "instmgr", "attrnull", "enums", "threading", "p21rw"]
+EXTRACTORS = ["stepfile", "instmgr", "attrnull", "enums", "threading", "p21rw", "headerids"]
 STATES = ["completeSE", "incompleteSE", "newSE", "deleteSE"]
 LETTER = {"completeSE": "C", "incompleteSE": "I", "newSE": "N", "deleteSE": "D"}
 
@@ -95,6 +95,26 @@ def run_case(ctx, h, m, schema, pop, holes, states, strict, workdir, tag, reuse=
     saves and reloads several times.  wc: the writeComments argument of every save (instances may carry Part 21 comments).
     header: body of the HEADER section of the file the history starts from; every save must reproduce it."""
     base = os.path.join(workdir, f"{tag}_base.p21")
+
+    def hdr_cmp(where):
+        """file ids of the header instances: implementation = id model; never two instances under one id"""
+        a, b = h.cmd("hdr"), m.cmd("hids")
+        ids = [x.split("/")[0] for x in a.split()[1:]]
+        if len(set(ids)) != len(ids):
+            return ("property", f"{where}: two header instances carry the same file id: {a}")
+        if a != b:
+            return ("correspondence", f"{where}: header instances held: impl {a} model {b}")
+        return None
+
+    def hdr_written(where, path):
+        """the header a save writes = what the id model says WriteHeader writes"""
+        got = header_ents(open(path).read())
+        want = [bytes.fromhex(x).decode("latin-1") for x in m.cmd("hwrite")[2:].split()]
+        want = [re.sub(r"(FILE_NAME\('(?:[^']|'')*',)'[^']*'", r"\1'<time>'", x) for x in want]
+        if got != want:
+            return ("correspondence", f"{where}: header written {got}, id model {want}")
+        return None
+
     w = [os.path.join(workdir, f"{tag}_w{k}.p21") for k in range(4)]
     x = [os.path.join(workdir, f"{tag}_x{k}.p21") for k in range(3)]
     if not reuse:
@@ -120,6 +140,7 @@ def run_case(ctx, h, m, schema, pop, holes, states, strict, workdir, tag, reuse=
         rh = kv(h.cmd(f"read {base}"))
         rm = kv(m.cmd("read " + " | ".join(G.encode_inst(i, schema) for i in pop)))
     want_header = G.header_of(text)
+    hdr_issues = [hdr_cmp("after the first load")]
     d0h, d0m = h.cmd("dump"), m.cmd("dump")
     if start == "working":
         d0 = parse_dump(d0h)
@@ -140,29 +161,48 @@ def run_case(ctx, h, m, schema, pop, holes, states, strict, workdir, tag, reuse=
     h.cmd(f"writework {w[0]} {wc}")
     mw0 = m.cmd(f"writework {wc}")
     mh0 = m.cmd("header")
+    hdr_issues.append(hdr_written("first save", w[0]))
     m.cmd("fileheader " + mh0[2:])
     r1h = kv(h.cmd(f"readwork {w[0]}"))
     r1m = kv(m.cmd("readwork " + mw0[2:]))
+    hdr_issues.append(hdr_cmp("after reading the first save back"))
     d1h, d1m = h.cmd("dump"), m.cmd("dump")
     h.cmd(f"writework {w[1]} {wc}")
     mw1 = m.cmd(f"writework {wc}")
+    hdr_issues.append(hdr_written("second save", w[1]))
     m.cmd("fileheader " + m.cmd("header")[2:])
     h.cmd(f"readwork {w[1]}")
     m.cmd("readwork " + mw1[2:])
+    hdr_issues.append(hdr_cmp("after reading the second save back"))
     d2h, d2m = h.cmd("dump"), m.cmd("dump")
     h.cmd(f"writework {w[2]} {wc}")
     mw2 = m.cmd(f"writework {wc}")
     mh2 = m.cmd("header")
+    hdr_issues.append(hdr_written("third save", w[2]))
+    hdr_issues = [x for x in hdr_issues if x]
     # exchange round trip in a fresh session, same mode
     h.cmd(f"reset {strict}")
     h.cmd(f"read {x[0]}")
     h.cmd(f"write {x[1]} 0 {wc}")
+    # the model follows (a continued session starts from this object: `_headerId` depends on what it has read)
+    m.cmd(f"reset {strict}")
+    try:
+        x0 = open(x[0]).read()
+        m.cmd("fileheader " + " ".join(G.hx(y) for y in header_ents(x0)))
+        m.cmd("read " + " | ".join(G.encode_inst(i, schema) for _, i in G.parse_p21(x0)[2]))
+        hdr_issues.append(hdr_cmp("after the exchange round trip"))
+        hdr_issues = [y for y in hdr_issues if y]
+    except Exception as ex:
+        return ("property", f"the exchange file written by the session cannot be parsed: {ex}")
     try:
         ft0, e0 = entries_of(w[0]); ft1, e1 = entries_of(w[1]); ft2, e2 = entries_of(w[2])
         _, _, ex1 = G.parse_p21(open(x[1]).read())
     except Exception as ex:
         return ("property", f"a saved file cannot be parsed: {ex}")
     # ---------------- oracle
+    for x in hdr_issues:
+        if x[0] == "property":
+            return x
     # the header is part of the file: every save carries the header of the file the session was loaded from (time stamp aside)
     for k in range(3):
         got = G.header_of(open(w[k]).read())
@@ -241,6 +281,56 @@ def run_case(ctx, h, m, schema, pop, holes, states, strict, workdir, tag, reuse=
     for key in ("incr", "n", "max"):
         if r1h[key] != r1m[key]:
             return ("correspondence", f"readwork {key}: impl {r1h[key]} model {r1m[key]}")
+    for x in hdr_issues:
+        return x
+    return None
+
+
+HEADER_HISTORIES = [
+    # (function, header entities) ...; D/N/S = FILE_DESCRIPTION / FILE_NAME / FILE_SCHEMA, l/c/p = SECTION_LANGUAGE / SECTION_CONTEXT /
+    # FILE_POPULATION.  Every history starts from a new STEPfile object.  The orders that are not the one Part 21 prescribes are
+    # compared with the id model only (theorem C16_header_order_witness says what happens there).
+    [("readwork", "DNSlcpl")], [("readwork", "lDNS")], [("append", "DNlS"), ("append", "DNSlclc"), ("readwork", "DSNpp")],
+    [("read", "DNSlcp"), ("read", "DNSlcp"), ("readwork", "DNSl"), ("readwork", "DNS"), ("readwork", "DNSllll")],
+    [("append", "pDNS"), ("read", "cDNSl")], [("readwork", "DNSlcplcplcp"), ("append", "DNSp"), ("read", "DNS"), ("append", "DNSl")],
+    [("append", "DNS"), ("append", "DNSlc"), ("appendwork", "DNSlcp")], [("readwork", "NSD")], [("readwork", "DS")], [("read", "l")],
+]
+
+
+def header_histories(h, m, schema, workdir):
+    """file ids of the header instances and the header written, implementation against the id model, on hand-made histories"""
+    ent = {"D": "FILE_DESCRIPTION(('a'),'2;1');", "N": "FILE_NAME('n','2000-01-01T00:00:00',('a'),('o'),'p','s','z');",
+           "S": f"FILE_SCHEMA(('{schema.name.upper()}'));", "l": "SECTION_LANGUAGE($,'en');", "c": "SECTION_CONTEXT($,('x'));",
+           "p": "FILE_POPULATION('a','b',$);"}
+    n = 0
+    for hist in HEADER_HISTORIES:
+        for side in (h, m):
+            side.cmd("reset 0")
+        for k, (cmd, spec) in enumerate(hist):
+            ents = [ent[ch] for ch in spec]
+            working = cmd in ("readwork", "appendwork")
+            text = ("STEP_WORKING_SESSION;" if working else "ISO-10303-21;") + "\nHEADER;\n" + "".join(e + "\n" for e in ents) + \
+                "ENDSEC;\nDATA;\nENDSEC;\n" + ("END-STEP_WORKING_SESSION;" if working else "END-ISO-10303-21;") + "\n"
+            f = os.path.join(workdir, "hh.p21")
+            open(f, "w").write(text)
+            m.cmd("fileheader " + " ".join(G.hx(x) for x in ents))
+            h.cmd(f"{cmd} {f}")
+            rm = m.cmd(cmd)
+            if rm.startswith("R bad"):
+                return f"header history {hist[:k + 1]}: the model does not know `{cmd}`"
+            a, b_ = h.cmd("hdr"), m.cmd("hids")
+            n += 1
+            if a != b_:
+                return f"header history {hist[:k + 1]}: header instances held: impl {a} model {b_}"
+            out = os.path.join(workdir, "hh_out.p21")
+            h.cmd(f"writework {out} 0")
+            got = header_ents(open(out).read())
+            want = [re.sub(r"(FILE_NAME\('(?:[^']|'')*',)'[^']*'", r"\1'<time>'", bytes.fromhex(x).decode("latin-1")) for x in m.cmd("hwrite")[2:].split()]
+            names = ["FILE_DESCRIPTION", "FILE_NAME", "FILE_SCHEMA"]
+            same = len(got) == len(want) and all(
+                (g.split("(")[0] == names[j] if (w_ == "<default>" and j < 3) else g == w_) for j, (g, w_) in enumerate(zip(got, want)))
+            if not same:
+                return f"header history {hist[:k + 1]}: header written {got}, id model {want}"
     return None
 
 
@@ -314,6 +404,9 @@ def run(ctx):
         try:
             check_schema_table(h, s)
             if s is schemas[0]:
+                e = header_histories(h, m, s, wd)
+                if e:
+                    ctx.broken.append(("correspondence header id model vs STEPfile header instances", e))
                 # around STEPfile::_maxErrorCount (100000): every skipped `D` entry is counted as a record that yielded no instance
                 for nd in (99999, 100000, 100001):
                     e = many_deleted(ctx, h, s, wd, nd)
@@ -353,7 +446,7 @@ def run(ctx):
                     reuse = ai % 3 != 0 and ai % 6 != 4
                     strict = pi_ % 2 if True else 0    # the mode is fixed when the STEPfile is made: constant per session
                     wc = 1 if ai % 4 != 3 else 0
-                    header = G.gen_header(ctx.rng, s.name, n_extra=[0, 1, 3, 2, 3, 1][ai % 6])   # 3 and 4+ header entities, new contents every time
+                    header = G.gen_header(ctx.rng, s.name, n_extra=[0, 1, 3, 2, 6, 1, 4][ai % 7], repeat=ai % 7 in (4, 6))   # 3 and 4+ header entities (also more of them than `_headerId` starts with, repeated kinds), new contents every time
                     start = "working" if ai % 3 != 0 else "exchange"      # ai%3 = 1, 2: ReadWorkingFile(A) then ReadWorkingFile(B) in one STEPfile
                     r = run_case(ctx, h, m, s, pop, holes, states, strict, wd, "c", reuse=(reuse and ai > 0), wc=wc, header=header, start=start)
                     ctx.hist("history starts from", start + " file")
